@@ -61,3 +61,8 @@ claim("C20", "shape worlds: mock unit walked per response-field shape and type-c
       "Structural: for every response-field shape (kind x singular/optional/oneof-member/repeated) the emitted mock file type-checks together with the service file and the server runtime, and Mock<S>Server implements <S>Server; the example table and the selectors spell keys with the same expression; example text is quoted; the field walker is visited-guarded; file-independent package-level names are reported. Whether mock values satisfy validation rules or response schemas is not decided.",
       "protoc-gen-go's field type mapping; map-valued response fields are not modelled (key and value of the entry would share one shape).",
       "DESIGN.md 5/C20")
+
+claim("C04", "store/reset path analysis and structural rules over every parsed variant of every emitted codec; provenance comparison of encoder/decoder keys; inventory of encoding/json on message values",
+      "Structural necessary conditions only (round-trip equality of VALUES is not decidable from the code's shape and is not claimed): no decoder stores into the message before the resetting protojson decode unless the datum is re-inserted or its key stays in the re-decoded map; flattened-oneof arms set the oneof unconditionally; a feature's encoder and decoder spell keys with the same accessors; timestamp/bytes format arms are symmetric; no UnixNano; child marshalling errors are not dropped; encoding/json on generated messages is inventoried (known architectural findings).",
+      "protojson.Unmarshal resets its target; encoding/json uses Go struct tags on generated structs.",
+      "DESIGN.md 5/C04")
